@@ -252,7 +252,7 @@ def run(chk, replay=None):
         'x (loose_units, check_units, canonical_units); quick: complete pairs for * and / (value kinds that the code distinguishes), complete '
         'pairs for + and == at the default setting, seeded sample of pairs under the 7 other settings and for -; thorough: + and == complete under '
         'the 4 (loose_units, check_units) settings and a seeded quarter of the pairs under the 4 settings that differ in canonical_units only (read by the '
-        'printers only, flag theorem), - complete under the default and the strictest setting; ** for n in {2,-1,3} on every operand; every transform row of the translated table on every quantity; '
+        'printers only, flag theorem), - complete under the default setting; zero/constant/parameter value kinds and the singletons against every operand: a seeded half of the pairs (default setting) and an eighth (strictest); ** for n in {2,-1,3} on every operand; every transform row of the translated table on every quantity; '
         'every domain change offered through the call syntax X(t), X(s), X(f), X(omega), X(jw), X(jf) and the named methods, one and two steps deep from a Laplace- and a time-domain start, for every quantity class (step rule + route independence); non-trivial = the real operator returned a result (not an error) or the spec demands a refusal; distinct by (operator, setting, operand descriptors); '
         'ROUND 3 -- typed results: (two-port object in {8 parameter-matrix classes reached by every conversion from seed matrices, every TwoPort network class '
         'buildable from a pool of constructor recipes (quick: 10 core + 4 seeded-random, thorough: all ~55), Circuit.twoport}) x (every attribute of the regenerated '
@@ -503,9 +503,9 @@ def run(chk, replay=None):
     else:
         allk = [k for k in operands] + list(singles)
         for cfg in CONFIGS:
-            # `-` takes the same path as `+` (__compat_add__): complete under the default and the strictest setting,
-            # sampled under the six others (round 3: makes room for the typed-result streams within the 20 min budget)
-            ops3 = ('+', '-', '==') if cfg in (CONFIGS[0], (False, True, False)) else ('+', '==')
+            # `-` takes the same path as `+` (__compat_add__): complete under the default setting, sampled under the
+            # seven others (round 3: makes room for the typed-result streams within the 20 min budget)
+            ops3 = ('+', '-', '==') if cfg == CONFIGS[0] else ('+', '==')
             # canonical_units is read by the printing properties only (theorem flag_canonical_units_only_printing):
             # complete enumeration under the four (loose_units, check_units) settings, a seeded quarter of the pairs under
             # the four settings that differ in canonical_units only
@@ -514,14 +514,17 @@ def run(chk, replay=None):
                     if cfg[2] and rng.random() >= 0.25:
                         continue
                     run_add(ak, xk, cfg, ops3)
-        # zero / constant value kinds and singletons: complete at the default and the strictest setting, sampled elsewhere
+        # zero / constant value kinds and singletons against every operand, both orders: a seeded half of the pairs at the
+        # default setting, a seeded eighth at the strictest setting, sampled elsewhere
         special = [k for k in allk if len(k) == 2 or k[2] in ('zero', 'const', 'par')]
-        for cfg in (CONFIGS[0], (False, True, False)):
+        for cfg, share in ((CONFIGS[0], 0.5), ((False, True, False), 0.125)):
             for sk in special:
                 for bk in add_a:
+                    if rng.random() >= share:
+                        continue
                     run_add(sk, bk, cfg, ('+', '=='))
                     run_add(bk, sk, cfg, ('+', '=='))
-        for i in range(40000):
+        for i in range(30000):
             ak, xk = rng.choice(allk), rng.choice(allk)
             run_add(ak, xk, CONFIGS[rng.randrange(8)], ('+', '-', '=='))
     chk.coverage['timing_add_s'] = round(time.time() - t0, 1)
